@@ -33,7 +33,7 @@ fn extract_path<'a, T: serde::Deserialize<'a>>(router: &'a matchit::Router<u8>, 
 #[test]
 fn bounded_search_over_encoded_path_parameters() {
     let thorough = std::env::var("VERIF_TIER").map(|t| t == "thorough").unwrap_or(false);
-    let n: u64 = if thorough { 200_000 } else { 20_000 };
+    let n: u64 = if thorough { 1_000_000 } else { 20_000 };
     let mut router = matchit::Router::new();
     // the order of the parameters in the route differs from the order of the fields: matching is by name
     router.insert("/t/{tag}/n/{name}/{flag}/{letter}/i/{id}/{signed}/{small}/{ratio}", 1u8).unwrap();
@@ -94,7 +94,7 @@ struct Form { id: u32, name: String, note: Option<String>, flag: bool, big: i64 
 #[test]
 fn bounded_search_over_query_strings_forms_and_json() {
     let thorough = std::env::var("VERIF_TIER").map(|t| t == "thorough").unwrap_or(false);
-    let n: u64 = if thorough { 100_000 } else { 10_000 };
+    let n: u64 = if thorough { 300_000 } else { 10_000 };
     let mut rng = Rng(0xD1B54A32D192ED03);
     for i in 0..n {
         let want = Form { id: [0, u32::MAX, rng.n(1 << 32) as u32][rng.n(3) as usize], name: text(&mut rng, 0), note: if rng.n(3) == 0 { None } else { Some(text(&mut rng, 1)) } /* serde_html_form reads an empty value as None for an Option: not generated */,
